@@ -213,6 +213,8 @@ class Shadow:
                     raise ShadowInvalid(f"phase {phi!r}")
                 if _is_real_number(phi):
                     phi = float(phi)
+                    if not math.isfinite(phi):
+                        raise ShadowInvalid(f"phase {phi!r}")      # exp(i phi) is no phase factor: U_full could not be unitary
                 m = np.array([[np.exp(1j * phi)]])
             elif kind == "loss":
                 l = val(pl[0])
